@@ -194,11 +194,108 @@ func checkRoots(rc *rootCase) {
 	}
 }
 
+// the containment test on synthetic cubics: a curve that clearly leaves the corridor through the interior of a
+// side must be rejected, one that stays clearly inside must be accepted
+type curveCase struct {
+	Rects    []autog.VerifRect `json:"rects"`
+	Ctrl     [4][2]float64     `json:"ctrl"`
+	Expected string            `json:"expected"` // "inside" | "outside"
+	Got      bool              `json:"contained"`
+	Problem  string            `json:"problem,omitempty"`
+}
+
+func strictlyInside(rs []autog.VerifRect, x, y, margin float64) bool {
+	// inside one rectangle shrunk by margin, or within margin of a shared boundary inside the overlap
+	for _, r := range rs {
+		if x >= r.TLX+margin && x <= r.BRX-margin && y >= r.TLY-1e-9 && y <= r.BRY+1e-9 {
+			return true
+		}
+	}
+	return false
+}
+
+func corners(rs []autog.VerifRect) [][2]float64 {
+	var out [][2]float64
+	for _, r := range rs {
+		out = append(out, [2]float64{r.TLX, r.TLY}, [2]float64{r.BRX, r.TLY}, [2]float64{r.TLX, r.BRY}, [2]float64{r.BRX, r.BRY})
+	}
+	return out
+}
+
+func genCurveCase(r *Rng) (curveCase, bool) {
+	c := genCorridor(r, "inside")
+	cc := curveCase{Rects: c.Rects}
+	f, l := c.Rects[0], c.Rects[len(c.Rects)-1]
+	rnd := func(a, b float64) float64 { return a + (b-a)*float64(r.Intn(1001))/1000 }
+	minx, maxx := f.TLX, f.BRX
+	for _, rc := range c.Rects {
+		minx, maxx = math.Min(minx, rc.TLX), math.Max(maxx, rc.BRX)
+	}
+	cc.Ctrl[0] = [2]float64{rnd(f.TLX+1, f.BRX-1), f.TLY + 1}
+	cc.Ctrl[3] = [2]float64{rnd(l.TLX+1, l.BRX-1), l.BRY - 1}
+	cc.Ctrl[1] = [2]float64{rnd(minx-20, maxx+20), rnd(f.TLY, l.BRY)}
+	cc.Ctrl[2] = [2]float64{rnd(minx-20, maxx+20), rnd(f.TLY, l.BRY)}
+	// classify by dense sampling
+	const N = 2000
+	maxOut := 0.0
+	allDeepInside := true
+	nearCorner := false
+	prevIn := true
+	for k := 0; k <= N; k++ {
+		x, y := bez(cc.Ctrl, float64(k)/N)
+		in := inCorridor(c.Rects, x, y)
+		if !strictlyInside(c.Rects, x, y, 0.5) {
+			allDeepInside = false
+		}
+		if !in {
+			d := math.Inf(1)
+			for _, rc := range c.Rects {
+				dx := math.Max(math.Max(rc.TLX-x, 0), x-rc.BRX)
+				dy := math.Max(math.Max(rc.TLY-y, 0), y-rc.BRY)
+				d = math.Min(d, math.Hypot(dx, dy))
+			}
+			maxOut = math.Max(maxOut, d)
+		}
+		if in != prevIn { // a boundary crossing near this sample: is it close to a polygon vertex?
+			for _, q := range corners(c.Rects) {
+				if math.Hypot(q[0]-x, q[1]-y) < 1.0 {
+					nearCorner = true
+				}
+			}
+		}
+		prevIn = in
+	}
+	switch {
+	case allDeepInside:
+		cc.Expected = "inside"
+	case maxOut > 1.0 && !nearCorner:
+		cc.Expected = "outside"
+	default:
+		return cc, false // borderline: the fitter's tolerances may go either way
+	}
+	return cc, true
+}
+
 func runSpline(fs *flag.FlagSet, prop string, seed uint64, n int, out, file string) int {
 	r := NewRng(seed)
 	var res struct {
 		Splines []splineCase `json:"splines"`
 		Roots   []rootCase   `json:"roots"`
+		Curves  []curveCase  `json:"curves"`
+	}
+	for i := 0; i < 6*n; i++ {
+		cc, ok := genCurveCase(r)
+		if !ok {
+			continue
+		}
+		cc.Got = autog.VerifCurveContained(cc.Ctrl, cc.Rects)
+		if cc.Expected == "outside" && cc.Got {
+			cc.Problem = "a cubic that leaves the corridor by more than 1 unit through the interior of a side is accepted as contained"
+		}
+		if cc.Expected == "inside" && !cc.Got {
+			cc.Problem = "a cubic that stays at least 0.5 inside the corridor is rejected"
+		}
+		res.Curves = append(res.Curves, cc)
 	}
 	stuck := 0
 	for i := 0; i < n && stuck < 4; i++ {
